@@ -336,6 +336,210 @@ template <class E, class CQ> void container_family(char const *qual)
   }
 }
 
+// ------------------------------------------------------------------ container histories
+// uniform_container keeps a *reference* to the container: the container may be modified between
+// draws as long as the index range [0, size at construction) stays valid (shrinking below it is
+// outside the contract).  After each modification of the menu every drawn reference must be the
+// address of the CURRENT element container[i], i = the index std::uniform_int_distribution gives
+// (identity against &container[i]; the value is then read through the drawn reference, under ASan).
+// A cached iterator / pointer / copy of the container shows as a stale address (or a
+// heap-use-after-free).  Wrapper copies and variates made before and after the modification
+// must behave the same.
+enum mutation
+{
+  m_nothing,
+  m_overwrite,
+  m_push_within_capacity,
+  m_push_past_capacity,
+  m_grow_then_shrink_to_fit,
+  m_assign_same_size,
+  m_swap_equal_size,
+  m_push_front, // deque only: elements keep their addresses but change their index
+  m_count
+};
+char const *const mutation_name[] = {"nothing",
+                                     "overwrite elements in place",
+                                     "push_back within capacity",
+                                     "push_back past capacity (reallocation)",
+                                     "grow, resize back, shrink_to_fit",
+                                     "assign same size",
+                                     "swap with an equal-size container",
+                                     "push_front"};
+char const *const mutation_sig[] = {"nothing", "overwrite", "push_back_within_capacity", "push_back_realloc", "shrink_to_fit",
+                                    "assign", "swap", "push_front"};
+
+template <class C> typename C::value_type elem(int const i)
+{
+  using V = typename C::value_type;
+  if constexpr (std::is_same_v<V, std::string>)
+    return "elem" + std::to_string(i);
+  else if constexpr (std::is_same_v<V, char>)
+    return static_cast<char>('a' + i % 26);
+  else
+    return static_cast<V>(1000 + i);
+}
+
+template <class C> constexpr bool has_capacity = requires(C &c) { c.reserve(1U); c.capacity(); };
+template <class C> constexpr bool has_push_front = requires(C &c, typename C::value_type v) { c.push_front(v); };
+
+template <class C> bool mutation_applies(int const m)
+{
+  if (m == m_push_front)
+    return has_push_front<C>;
+  return true;
+}
+
+// bring the container into the state the mutation starts from (before the wrapper is built)
+template <class C> void prepare(C &c, int const n, int const m)
+{
+  c = build<C>::make(n);
+  if constexpr (has_capacity<C>)
+  {
+    if (m == m_push_within_capacity)
+      c.reserve(static_cast<std::size_t>(n) + 8U);
+    else if (m == m_push_past_capacity || m == m_grow_then_shrink_to_fit)
+      c.shrink_to_fit(); // small capacity first, so that growing certainly reallocates
+  }
+}
+
+template <class C> void mutate(C &c, int const n, int const m)
+{
+  auto const un = static_cast<std::size_t>(n);
+  switch (m)
+  {
+  case m_nothing:
+    break;
+  case m_overwrite:
+    for (std::size_t i = 0; i < un; ++i)
+      c[i] = elem<C>(50 + static_cast<int>(i));
+    break;
+  case m_push_within_capacity:
+    for (int i = 0; i < 3; ++i)
+      c.push_back(elem<C>(200 + i));
+    break;
+  case m_push_past_capacity:
+  {
+    std::size_t extra = 600U; // deque: many new blocks and a new map
+    if constexpr (has_capacity<C>)
+      extra = c.capacity() - c.size() + 40U;
+    for (std::size_t i = 0; i < extra; ++i)
+      c.push_back(elem<C>(300 + static_cast<int>(i)));
+    break;
+  }
+  case m_grow_then_shrink_to_fit:
+    for (int i = 0; i < 100; ++i)
+      c.push_back(elem<C>(400 + i));
+    c.resize(un, elem<C>(0));
+    c.shrink_to_fit();
+    break;
+  case m_assign_same_size:
+    c.assign(un, elem<C>(77));
+    break;
+  case m_swap_equal_size:
+  {
+    C other;
+    for (std::size_t i = 0; i < un; ++i)
+      other.push_back(elem<C>(500 + static_cast<int>(i)));
+    c.swap(other);
+    // `other` (the old storage of c) dies here
+    break;
+  }
+  case m_push_front:
+    if constexpr (has_push_front<C>)
+      for (int i = 0; i < 5; ++i)
+        c.push_front(elem<C>(600 + i));
+    break;
+  default:
+    break;
+  }
+}
+
+template <class E, class CQ> void container_mutation_family(char const *qual)
+{
+  using C = std::remove_const_t<CQ>;
+  using size_type = typename C::size_type;
+  using G = typename E::fc;
+  using U = fcppt::random::wrapper::uniform_container<CQ, wrapper_tag>;
+  using V = fcppt::random::variate<G, U>;
+  using RD = std::uniform_int_distribution<size_type>;
+  using ref_t = std::conditional_t<std::is_const_v<CQ>, typename C::const_reference, typename C::reference>;
+  constexpr int per_wrapper = 10;
+  std::string const nm = std::string("uniform_container<") + build<C>::name + qual + "," + E::name + ">";
+  char const *const fn = intern("container_history<" + std::string(build<C>::name) + qual + "," + E::name + ">");
+  for (int n = 1; n <= max_size; ++n)
+    for (int m = 0; m < m_count; ++m)
+    {
+      if (!mutation_applies<C>(m))
+        continue;
+      if (vrt::out_of_time())
+        return;
+      for (int adv = 0; adv < 2; ++adv)
+        for (u64 const seed : seeds())
+        {
+          if (!vrt::begin_text(fn, vrt::fmt("%s(size=%d, %s, %s, seed=%s)", fn, n, mutation_name[m],
+                                            adv ? "make_uniform_container_advanced" : "make_uniform_container",
+                                            str128(static_cast<i128>(seed)).c_str())))
+            continue;
+          vrt::nontrivial(m != m_nothing);
+          vrt::maybe_sample();
+          C storage;
+          prepare(storage, n, m);
+          CQ &c = storage;
+          fcppt::optional::object<U> const op(
+              adv ? fcppt::random::wrapper::make_uniform_container_advanced<wrapper_tag, CQ>(fcppt::reference<CQ>(c))
+                  : fcppt::random::wrapper::make_uniform_container(fcppt::reference<CQ>(c)));
+          if (!op.has_value())
+          {
+            vrt::fail(nm + ":missing", "nothing returned for a non-empty container");
+            continue;
+          }
+          G g(fc_seed<E>(seed));
+          typename E::sd ref = sd_engine<E>(seed);
+          size_type const hi = static_cast<size_type>(n - 1);
+          RD rd(0, hi);
+          bool ok = true;
+          std::string const sig = nm + ":after_" + mutation_sig[m];
+          auto draw_n = [&](char const *who, auto &&fc) {
+            for (int i = 0; ok && i < per_wrapper; ++i)
+            {
+              ref_t r = fc();
+              size_type const w = rd(ref);
+              if (std::addressof(r) != std::addressof(c[w]))
+              {
+                bool elsewhere = false;
+                for (std::size_t k = 0; k < c.size(); ++k)
+                  elsewhere = elsewhere || std::addressof(r) == std::addressof(c[k]);
+                vrt::fail(sig + (elsewhere ? ":sequence" : ":not_a_current_element"),
+                          vrt::fmt("%s draw %d: the drawn reference is %s, expected the current element %zu", who, i,
+                                   elsewhere ? "another element of the container" : "not the address of any current element",
+                                   static_cast<std::size_t>(w)));
+                ok = false;
+              }
+              else if (!(r == c[w])) // reads through the drawn reference
+              {
+                vrt::fail(sig + ":value", vrt::fmt("%s draw %d: value read differs from element %zu", who, i, static_cast<std::size_t>(w)));
+                ok = false;
+              }
+            }
+          };
+          U u(op.get_unsafe());
+          draw_n("wrapper before the modification", [&]() -> ref_t { return u(g); });
+          U copy_before(u);
+          V variate_before(fcppt::make_ref(g), u);
+          mutate(storage, n, m);
+          U copy_after(u);
+          V variate_after(fcppt::make_ref(g), u);
+          draw_n("wrapper", [&]() -> ref_t { return u(g); });
+          draw_n("copy made before the modification", [&]() -> ref_t { return copy_before(g); });
+          draw_n("copy made after the modification", [&]() -> ref_t { return copy_after(g); });
+          draw_n("variate made before the modification", [&]() -> ref_t { return variate_before(); });
+          draw_n("variate made after the modification", [&]() -> ref_t { return variate_after(); });
+          if (ok && g() != ref())
+            vrt::fail(sig + ":generator_state", "generator state differs from the std engine");
+        }
+    }
+}
+
 // ------------------------------------------------------------------ several variates on one generator
 // A variate holds a *reference* to the generator: three variates (int, long, normal<double>)
 // drawing in a fixed interleaving from one fcppt generator must see the same numbers as three
@@ -498,6 +702,20 @@ void c20::register_container()
     container_family<eng_mt, std::vector<int> const>(" const");
     container_family<eng_mt, std::vector<std::string> const>(" const");
     container_family<eng_mt, std::deque<int>>("");
+  });
+  vrt::shard("container_history/minstd_rand", [] {
+    container_mutation_family<eng_minstd, std::vector<int>>("");
+    container_mutation_family<eng_minstd, std::vector<int> const>(" const");
+    container_mutation_family<eng_minstd, std::vector<std::string> const>(" const");
+    container_mutation_family<eng_minstd, std::deque<int>>("");
+    container_mutation_family<eng_minstd, std::string>("");
+  });
+  vrt::shard("container_history/mt19937", [] {
+    container_mutation_family<eng_mt, std::vector<int>>("");
+    container_mutation_family<eng_mt, std::vector<int> const>(" const");
+    container_mutation_family<eng_mt, std::vector<std::string> const>(" const");
+    container_mutation_family<eng_mt, std::deque<int>>("");
+    container_mutation_family<eng_mt, std::string>("");
   });
   vrt::shard("shared_generator", [] {
     shared_family<eng_minstd>();
